@@ -1643,8 +1643,10 @@ class Cell(Bucket):
                 continue
 
             restore = {}
-            if app.renew:
-                assert app.server
+            # An app evicted earlier in this cycle has no placement to renew,
+            # keep the request until it is placed again.
+            renew_evicted = app.renew and not app.server
+            if app.renew and app.server:
                 assert app.has_identity()
                 assert app.server in servers
                 server = servers[app.server]
@@ -1663,7 +1665,7 @@ class Cell(Bucket):
             # If placement will be found, renew should remain False. If
             # placement will not be found, renew will be set to True when
             # placement is restored to the server it was running.
-            app.renew = False
+            app.renew = renew_evicted
 
             if app.server:
                 assert app.server in servers
